@@ -163,4 +163,28 @@ pub fn run(s: &mut Session, ctx: &Ctx) {
             ops::num2(s, "ciede2000", a, b, true);
         }
     }
+    // the Color-level wrappers are the metrics of the two colours' Lab coordinates - also for
+    // colours less than one 8-bit step apart (HSL-float neighbours), which compare equal as RGBA
+    let n_pairs = if ctx.thorough { 60_000 } else { 3_000 };
+    for i in 0..n_pairs {
+        let a = crate::gen::color_hsl(&mut rng);
+        let b = if i % 2 == 0 {
+            let h = a.to_hsla();
+            pastel::Color::from_hsla(h.h + rng.range(-0.4, 0.4), h.s + rng.range(-0.004, 0.004), h.l + rng.range(-0.001, 0.001), h.alpha)
+        } else {
+            crate::gen::color_hsl(&mut rng)
+        };
+        let (la, lb) = (a.to_lab(), b.to_lab());
+        for (kind, got, want) in [
+            ("ciede2000", a.distance_delta_e_ciede2000(&b), pastel::delta_e::ciede2000(&la, &lb)),
+            ("cie76", a.distance_delta_e_cie76(&b), pastel::delta_e::cie76(&la, &lb)),
+        ] {
+            s.count_case("", true);
+            s.check((got - want).abs() <= 1e-9 * want.abs().max(1.0), "color-distance-is-metric-of-lab", &format!("Color::distance_delta_e_{}", kind),
+                || format!("{} vs {}", crate::wire::show_color(&a), crate::wire::show_color(&b)), || format!("wrapper {:?}, {} of the Lab coordinates {:?}", got, kind, want));
+        }
+        if i % 4 == 0 {
+            ops::num2(s, "ciede2000", &a, &b, true);
+        }
+    }
 }
